@@ -50,6 +50,11 @@ type lemmaDef struct {
 	Expr  cExpr
 	File  string
 	Line  int
+	// a lemma that mentions old(...) relates two heaps (e.g. before and after a call); it may be proved by
+	// well-founded induction on an integer measure over its quantified variables ("by induction on size(t)")
+	TwoState bool
+	Measure  cExpr
+	reads    map[string]bool // heap keys the lemma reads (computed on first use)
 }
 
 type contract struct {
@@ -79,14 +84,15 @@ type contractDB struct {
 	Markers   []string // assume/axiom/trusted style markers found
 	Ghosts    map[string]string // ghost state variable -> type
 	Invariants map[string][]*clause // layer -> global invariants of the property's sweep (assumed at entry of every function in scope, asserted at its exits and before every call into the scope)
+	RevealPost map[string]bool // layers in which the spec terms of callee postconditions are unfolded one level
 	Scopes    map[string][]string // property -> root functions: every module function reachable from them is in the property's sweep
 	Files     []string
 }
 
-var clauseKw = regexp.MustCompile(`^(scope|invariant|ghost|spec|macro|lemma|contract|external|requires|ensures|emits|callsite|decreases|loop|safety|props|inline|pure|modifies|noreturn|fuel|unreachable)\b`)
+var clauseKw = regexp.MustCompile(`^(reveal|scope|invariant|ghost|spec|macro|lemma|contract|external|requires|ensures|emits|callsite|decreases|loop|safety|props|inline|pure|modifies|noreturn|fuel|unreachable)\b`)
 
 func newContractDB() *contractDB {
-	return &contractDB{Specs: map[string]*specDef{}, Contracts: map[string]*contract{}, Ghosts: map[string]string{}, Scopes: map[string][]string{}, Invariants: map[string][]*clause{}}
+	return &contractDB{Specs: map[string]*specDef{}, Contracts: map[string]*contract{}, Ghosts: map[string]string{}, Scopes: map[string][]string{}, Invariants: map[string][]*clause{}, RevealPost: map[string]bool{}}
 }
 
 // loadContractFile parses one file. pkgPath is the Go package the file belongs to ("" for external files,
@@ -161,6 +167,12 @@ func (db *contractDB) loadContractFile(path, pkgPath string) error {
 			}
 			db.Invariants[layer] = append(db.Invariants[layer], &clause{Kind: "invariant", Layer: layer, Label: layer + ".invariant", Src: rest, Expr: e, File: path, Line: rc.line, Target: pkgPath})
 			cur = nil
+		case "reveal":
+			// reveal LAYER: in this layer the spec terms of callee postconditions are unfolded one level
+			for _, l := range strings.Fields(rest) {
+				db.RevealPost[l] = true
+			}
+			cur = nil
 		case "scope":
 			// scope PROP ROOT...: the property's safety sweep covers every module function reachable from the roots
 			f := strings.Fields(rest)
@@ -201,11 +213,22 @@ func (db *contractDB) loadContractFile(path, pkgPath string) error {
 			if k < 0 {
 				return fail("lemma needs 'label: expr'")
 			}
-			e, err := parseCExpr(rest[k+1:])
+			body := rest[k+1:]
+			var measure cExpr
+			if j := strings.LastIndex(body, " by induction on "); j >= 0 {
+				m, err := parseCExpr(body[j+len(" by induction on "):])
+				if err != nil {
+					return fail("%v", err)
+				}
+				measure = m
+				body = body[:j]
+			}
+			e, err := parseCExpr(body)
 			if err != nil {
 				return fail("%v", err)
 			}
-			db.Lemmas = append(db.Lemmas, &lemmaDef{Label: strings.TrimSpace(rest[:k]), Pkg: pkgPath, Src: strings.TrimSpace(rest[k+1:]), Expr: e, File: path, Line: rc.line})
+			db.Lemmas = append(db.Lemmas, &lemmaDef{Label: strings.TrimSpace(rest[:k]), Pkg: pkgPath, Src: strings.TrimSpace(rest[k+1:]), Expr: e, File: path, Line: rc.line,
+				TwoState: strings.Contains(body, "old("), Measure: measure})
 			cur = nil
 		case "contract", "external":
 			c := &contract{Pkg: pkgPath, File: path, Line: rc.line, External: kw == "external"}
